@@ -175,6 +175,19 @@ class _Forced:
         return getattr(s, name)
 
 
+def _alt_mask(m):
+    """A second content for a pool mask, of the same kind and shape (None: not refillable)."""
+    if m["kind"] == "bool":
+        bits = m["bits"]
+        if not bits:
+            return None
+        alt = [not bits[-1]] + list(bits[:-1])  # rotated by one row, first bit flipped
+        return dict(m, bits=alt)
+    if m["kind"] == "positions":
+        return dict(m, pos=list(reversed(m["pos"])))
+    return None
+
+
 def _refill_in_place(keys) -> bool:
     """The client reverses the content of its own key buffer(s), keeping the objects."""
     import pandas as pd
@@ -205,9 +218,24 @@ def _step_call(gb, step, ds, lay, class_keys=None, client=None):
         client[vkey] = gen.build_values(dso, lay, op["cols"])
     values = client[vkey]
     if "mask_ref" in op:
-        mkey = ("m", op["mask_ref"])
+        import pandas as pd
+
+        mkey, vkey_ = ("m", op["mask_ref"]), ("mver", op["mask_ref"])
         if mkey not in client:
             client[mkey] = gen.build_mask(dso, ops.op_mask(op))
+        elif client.get(vkey_) != op.get("mask_version", 0):
+            # the client refills its own mask buffer in place (same object, new content)
+            new = gen.build_mask(dso, ops.op_mask(op))
+            obj = client[mkey]
+            if isinstance(obj, np.ndarray) and isinstance(new, np.ndarray) and obj.shape == new.shape:
+                obj[:] = new
+                client["refilled_mask"] = True
+            elif isinstance(obj, pd.Series) and len(obj) == len(new):
+                obj.iloc[:] = np.asarray(new)
+                client["refilled_mask"] = True
+            else:
+                client[mkey] = new
+        client[vkey_] = op.get("mask_version", 0)
         mask = client[mkey]
     else:
         mask = gen.build_mask(dso, ops.op_mask(op))
@@ -242,6 +270,17 @@ def gen_scenario(scen: Choices, cls, cfg):
     max_steps = 8 if tier == "quick" else 14
     nsteps = 2 + scen.small(max_steps - 2)
     mask_pool = [gen.gen_mask(scen, ds, ("bool", "slice", "positions", "bool")) for _ in range(3)]
+    # every pool mask has a second content of the same shape: the client may refill the
+    # *same object* in place between two calls (nothing may be remembered about its old content)
+    mask_pool_alt = [_alt_mask(m) for m in mask_pool]
+    mask_version = [0, 0, 0]
+
+    def use_pool_mask(op_, j):
+        if mask_pool_alt[j] is not None and scen.chance(1, 3):
+            mask_version[j] ^= 1
+        v = mask_version[j]
+        op_["mask"] = mask_pool_alt[j] if v else mask_pool[j]
+        op_["mask_ref"], op_["mask_version"] = j, v
     steps = []
     # one third of the histories start with a "sandwich": a call, a step that re-organises
     # the key or fills a cache, and the same call again (same operation or at least the same
@@ -255,7 +294,7 @@ def gen_scenario(scen: Choices, cls, cfg):
             j = scen.draw(len(mask_pool))
             allowed = ("bool",) if first["op"]["op"] in ("median", "quantile", "apply") else ("bool", "slice", "positions")
             if mask_pool[j]["kind"] in allowed:
-                first["op"]["mask"], first["op"]["mask_ref"] = mask_pool[j], j
+                use_pool_mask(first["op"], j)
         scen.end(b_)
         b_ = scen.begin()
         want = LAYOUT_CHANGERS[scen.draw(len(LAYOUT_CHANGERS))]
@@ -265,10 +304,12 @@ def gen_scenario(scen: Choices, cls, cfg):
         b_ = scen.begin()
         if scen.draw(2) == 0:
             last = copy.deepcopy(first)
+            if "mask_ref" in last["op"]:
+                use_pool_mask(last["op"], last["op"]["mask_ref"])
         else:
             last = {"kind": "op", "op": ops.gen_op(scen, "basic", ds)}
             if "mask_ref" in first["op"] and "mask" in last["op"]:
-                last["op"]["mask"], last["op"]["mask_ref"] = first["op"]["mask"], first["op"]["mask_ref"]
+                use_pool_mask(last["op"], first["op"]["mask_ref"])
         scen.end(b_)
         steps = [first, middle, last]
     while len(steps) < max_steps:
@@ -286,8 +327,7 @@ def gen_scenario(scen: Choices, cls, cfg):
             j = scen.draw(len(mask_pool))
             allowed = ("none", "bool") if op_["op"] not in ops.BASIC + ["var", "std", "agg"] else ("none", "bool", "slice", "positions")
             if mask_pool[j]["kind"] in allowed:
-                op_["mask"] = mask_pool[j]
-                op_["mask_ref"] = j
+                use_pool_mask(op_, j)
         steps.append(step)
         scen.end(b_)
         if step["kind"] == "class_form" and len(steps) < max_steps and scen.chance(1, 2):
@@ -462,6 +502,8 @@ def execute(sc, sched: Choices, cls, cfg):
                 rec["nontrivial"] = True
         if changed and layout_changed_at is None and (layout_after != layout_before or state[1] != prev_state[1]):
             layout_changed_at = si
+        if client.get("refilled_mask"):
+            probes.add("client_refilled_mask_buffer")
         prev_state = state
         obj_prev_state[ti] = state
         if len(objs) > 1:
